@@ -615,6 +615,67 @@ pub func foo.restart!(p: base.u64) base.status {
     return base."#bad argument"
 }
 `,
+	// Structs without "?" (no magic value, no coroutine state, no choosy
+	// function pointers): as fields of either field list, containing a struct
+	// with "?", reset, public without methods (repaired: every struct has an
+	// initializer); with a coroutine / a choosy method (now rejected).
+	`pri struct foo(
+        x : base.u8,
+)
+
+pri struct bar?(
+        y : base.u8,
+)
+
+pri struct mid(
+        b : bar,
+)
+
+pub struct plain(
+        w : base.u8,
+)
+
+pub struct baz?(
+        f : foo,
+        m : mid,
+        k : bar,
+) + (
+        g : foo,
+        h : bar,
+)
+
+pub func baz.r!() {
+    this.f.reset!()
+    this.g.reset!()
+    this.m.b.y = this.k.y
+}
+`,
+	`pri struct foo(
+        x : base.u8,
+)
+
+pri func foo.bar?(src: base.io_reader) {
+    this.x = args.src.read_u8?()
+}
+`,
+	`pri struct foo(
+        x : base.u8,
+)
+
+pri func foo.up!() {
+    choose bar = [alt]
+}
+
+pri func foo.bar!(),
+        choosy,
+{
+    this.x = 1
+}
+
+pri func foo.alt!() {
+    this.x = 2
+}
+`,
 }
 
 // Top-level declaration templates (every lexeme deleted / duplicated too).
